@@ -401,3 +401,94 @@ Proof.
   destruct (run fwd (mkAst (Some p) i') ops) as [rs a'].
   unfold mon_C18 in *. rewrite Hb in R. cbn [app]. exact R.
 Qed.
+
+(* ---------- end of stream is never invented ---------- *)
+Definition script_pos (a : ast) : Prop := Forall chunk_pos (i_rscript (a_inner a)).
+
+Lemma inner_read_pos free i :
+  Forall chunk_pos (i_rscript i) ->
+  let '(r, i') := inner_read free i in
+  Forall chunk_pos (i_rscript i')
+  /\ match r with RRData [] => free = 0%nat \/ i_stream i = [] | _ => True end.
+Proof.
+  intros Hp. unfold inner_read. destruct (i_rscript i) as [|[| |k] s] eqn:Hs; cbn [i_rscript].
+  - split; [constructor|]. destruct (firstn free (i_stream i)) eqn:E; [|exact I].
+    destruct free; [left; reflexivity|]. destruct (i_stream i); [right; reflexivity|discriminate].
+  - inversion Hp; subst. split; [assumption|exact I].
+  - inversion Hp; subst. split; [assumption|exact I].
+  - inversion Hp as [|x l Hk Hrest]; subst. split; [assumption|].
+    destruct (firstn (Nat.min k free) (i_stream i)) eqn:E; [|exact I].
+    destruct k; [contradiction|]. destruct free; [left; reflexivity|].
+    cbn [Nat.min] in E. destruct (i_stream i); [right; reflexivity|discriminate].
+Qed.
+
+Lemma adapter_read_pos free a :
+  script_pos a ->
+  let '(r, a') := adapter_read free a in
+  script_pos a' /\ match r with RRData [] => free = 0%nat \/ unread a = [] | _ => True end.
+Proof.
+  intros Hp. unfold adapter_read, unread, script_pos in *.
+  destruct (a_prefix a) as [[|b p]|] eqn:Hpre.
+  - pose proof (inner_read_pos free (a_inner a) Hp) as H.
+    destruct (inner_read free (a_inner a)) as [r i']. cbn [a_inner app]. exact H.
+  - cbn [a_inner]. split; [exact Hp|]. destruct free; [left; reflexivity|].
+    cbn [length Nat.min firstn]. exact I.
+  - pose proof (inner_read_pos free (a_inner a) Hp) as H.
+    destruct (inner_read free (a_inner a)) as [r i']. cbn [a_inner app]. exact H.
+Qed.
+
+Lemma step_pos fwd a o :
+  script_pos a ->
+  let '(r, a') := step fwd a o in
+  script_pos a'
+  /\ match o, r with
+     | ORead cap pre, XData [] => (cap <= pre)%nat \/ unread a = []
+     | _, _ => True
+     end.
+Proof.
+  intros Hp. destruct o as [cap pre|bufs| |]; cbn [step].
+  - unfold buffered_read. cbn [b_cap b_filled]. rewrite repeat_length.
+    pose proof (adapter_read_pos (cap - pre) a Hp) as H.
+    destruct (adapter_read (cap - pre) a) as [r a']. destruct H as [H1 H2].
+    destruct r as [| |bs]; try (split; [exact H1|exact I]).
+    unfold buf_after. cbn [b_filled]. rewrite skipn_repeat_app. split; [exact H1|].
+    destruct bs; [|exact I]. destruct H2 as [H2|H2]; [left; lia|right; exact H2].
+  - unfold adapter_write, script_pos in *.
+    destruct (inner_write (if fwd then concat bufs else first_nonempty bufs) (a_inner a)) as [r i'] eqn:E.
+    cbn [a_inner]. split; [|destruct r; exact I].
+    unfold inner_write in E. destruct (i_wscript (a_inner a)) as [|[| |k] s]; injection E as <- <-; exact Hp.
+  - unfold adapter_flush, script_pos in *. destruct (inner_flush (a_inner a)) as [r i'] eqn:E.
+    cbn [a_inner]. split; [|destruct r; exact I].
+    unfold inner_flush in E. destruct (i_wscript (a_inner a)) as [|[| |k] s]; injection E as <- <-; exact Hp.
+  - unfold adapter_flush, script_pos in *. destruct (inner_flush (a_inner a)) as [r i'] eqn:E.
+    cbn [a_inner]. split; [|destruct r; exact I].
+    unfold inner_flush in E. destruct (i_wscript (a_inner a)) as [|[| |k] s]; injection E as <- <-; exact Hp.
+Qed.
+
+Theorem run_eof_ok fwd total : forall ops a got,
+  script_pos a -> (got + length (unread a) = total)%nat ->
+  eof_ok total ops (fst (run fwd a ops)) got = true.
+Proof.
+  induction ops as [|o ops IH]; intros a got Hp Hg; cbn [run]; [reflexivity|].
+  pose proof (step_pos fwd a o Hp) as HS. pose proof (step_spec fwd a o) as HD.
+  destruct (step fwd a o) as [r a1]. destruct HS as [Hp1 HE]. destruct HD as (HD & _ & _).
+  specialize (IH a1 (got + length (data_of r))%nat Hp1).
+  destruct (run fwd a1 ops) as [rs a2]. cbn [fst] in *. cbn [eof_ok].
+  apply andb_true_iff. split.
+  - destruct o as [cap pre|bufs| |]; try reflexivity. destruct r as [| |bs| |]; try reflexivity.
+    destruct bs as [|b bs]; [|cbn [length Nat.eqb negb]; destruct (Nat.leb cap pre); reflexivity].
+    destruct HE as [HE|HE].
+    + apply Nat.leb_le in HE. rewrite HE. reflexivity.
+    + rewrite HE in Hg. cbn [length] in Hg. rewrite Nat.add_0_r in Hg. subst got.
+      apply orb_true_iff. right. apply Nat.eqb_refl.
+  - apply IH. rewrite <- HD in Hg. rewrite app_length in Hg. lia.
+Qed.
+
+Theorem run_mon_C18_eof fwd prefix i ops :
+  Forall chunk_pos (i_rscript i) ->
+  mon_C18_eof (match prefix with Some p => p | None => [] end) (i_stream i) ops
+              (fst (run fwd (mkAst prefix i) ops)) = true.
+Proof.
+  intros Hp. unfold mon_C18_eof. apply run_eof_ok; [exact Hp|].
+  unfold unread. cbn [a_prefix a_inner]. reflexivity.
+Qed.
